@@ -157,9 +157,12 @@ def s_script(tier, seed, out):
     core = set(range(SCRIPT_CORE))
     for k in range(0, full + 1):
         for idx in itertools.product(range(len(alpha)), repeat=k):
-            # streams made of core kinds only: all of them; with a later kind: all up to length 2, a sixth of the longer ones
-            if k >= 3 and not all(i in core for i in idx) and dh(idx) % (6 if tier != "thorough" else 2) != 0:
-                continue
+            # streams made of core kinds only: all of them; with a later kind: all up to length 2, a sixth of length 3 (thorough:
+            # all of length 3, an eighth of length 4)
+            if k >= 3 and not all(i in core for i in idx):
+                keep_one_in = (6 if tier != "thorough" else 1) if k == 3 else 8
+                if dh(idx) % keep_one_in != 0:
+                    continue
             toks = render_tokens([alpha[i] for i in idx])
             for th in thrs:
                 out.write("scan\tscript\t%s\t%s\n" % (thr_bits(th), toks))
